@@ -218,7 +218,12 @@ def build_harness(cfg, work, log):
     else:
         shutil.copy(os.path.join(repo(), "go.sum"), os.path.join(HARNESS, "go.sum"))
     args += ["-o", binp, cfg["harness_pkg"]]
-    rc, o, e, dt = run(args, cwd=HARNESS, env=goenv(), timeout=1800)
+    # -mod=mod may rewrite harness/go.mod: serialise builds of checks running in parallel
+    with open(os.path.join(WORKROOT, "gobuild.lock"), "w") as lf:
+        fcntl.flock(lf, fcntl.LOCK_EX)
+        rc, o, e, dt = run(args, cwd=HARNESS, env=goenv(), timeout=1800)
+        if rc != 0 and "existing contents have changed" in (o + e):
+            rc, o, e, dt = run(args, cwd=HARNESS, env=goenv(), timeout=1800)
     if rc != 0:
         return None, (o + e)[-3000:]
     return binp, ""
